@@ -500,6 +500,28 @@ func corpus() []Case {
 	}
 	out = append(out, Case{Profile: "corpus-ll", Format: "fmp4", Streams: []Stream{{Ref: "http://stub.test/s0-pl.m3u8?token=x",
 		History: []Playlist{ll(0, true, true), ll(1, true, false), ll(2, true, true), ll(3, false, true)}}}})
+	// paced scenarios: 300 ms of media per segment, so that fetched segments are still queued / waiting
+	// in the track processor when the downloader learns that the stream is over. ErrClientEOS must
+	// come only after everything fetched has been delivered (judge: Delivered).
+	const slow = 27000
+	out = append(out, Case{Profile: "corpus-paced-endlist-late", Format: "ts", Pace: slow, Streams: []Stream{{Ref: "http://stub.test/p/s0-pl.m3u8",
+		History: []Playlist{a.playlist(0, 3, 0, false, ""), a.playlist(0, 3, 1, false, ""), a.playlist(0, 3, 2, false, ""),
+			a.playlist(0, 3, 3, true, "")}}}})
+	out = append(out, Case{Profile: "corpus-paced-endlist-late-fmp4", Format: "fmp4", Pace: slow, Streams: []Stream{{Ref: "http://stub.test/p/s0-pl.m3u8",
+		History: []Playlist{b.playlist(40, 5, 0, false, "EVENT"), b.playlist(40, 5, 1, false, "EVENT"), b.playlist(40, 5, 2, false, "EVENT"),
+			b.playlist(40, 5, 3, true, "EVENT")}}}})
+	out = append(out, Case{Profile: "corpus-paced-endlist-with-last-segment", Format: "ts", Pace: slow, Streams: []Stream{{Ref: "http://stub.test/p/s0-pl.m3u8",
+		History: []Playlist{a.playlist(5, 3, 0, false, ""), a.playlist(6, 3, 1, false, ""), a.playlist(7, 3, 2, true, ""),
+			a.playlist(7, 3, 3, true, ""), a.playlist(7, 3, 4, true, "")}}}})
+	{
+		a1 := g(1, "ts")
+		out = append(out, Case{Profile: "corpus-paced-endlist-late-multi", Format: "ts", Pace: slow, MasterURL: "http://stub.test/m/master.m3u8",
+			Streams: []Stream{
+				{Ref: "s0-pl.m3u8", History: []Playlist{a.playlist(0, 3, 0, false, ""), a.playlist(0, 3, 1, false, ""), a.playlist(0, 3, 2, false, ""),
+					a.playlist(0, 3, 3, true, "")}},
+				{Ref: "s1-pl.m3u8", History: []Playlist{a1.playlist(9, 4, 0, false, ""), a1.playlist(9, 4, 1, false, ""), a1.playlist(9, 4, 2, false, ""),
+					a1.playlist(9, 4, 3, true, "")}}}})
+	}
 	// segments that share a URI (sub-ranges of one resource with explicit offsets, or a plainly
 	// repeated URI) in playlists that carry ENDLIST: every listed segment must still be fetched
 	// exactly once, in order, before the stream ends
